@@ -34,6 +34,7 @@ int fmc_nthreads(void);
 int fmc_exploring(void);
 int fmc_tso_mode(void);                // 1 when stores may be delayed (x86-TSO runs, -S>0)
 uint64_t fmc_steps(void);
+void fmc_count(uint64_t n);           // cases enumerated inside one execution (sequential harnesses)
 
 // virtual timer (timerfd replaced by an eventfd): inject k expirations
 void fmc_tick(uint64_t k);
